@@ -85,12 +85,20 @@ CLAIMED = {
                      'length <= 2 (sampled length 3).',
                 note='re-seeded caches assumed equal to their getters (bounded check); known '
                      'finding F2 (polygons per connected region)'),
-    'C06': dict(engine='effects', technique=f'{_T} (frame of deblend_sources) + {_B} incl. '
-                                            'adversarial scheduler',
-                text='Proved: deblend_sources writes no caller-supplied object. Refinement facts and '
-                     'schedule independence (all permutations of completion order for <= 5 tasks, '
-                     'real spawn pools) are checked bounded.',
-                note='watershed / ndimage contracts not assumed; scheduling checked bounded'),
+    'C06': dict(engine='effects', technique=f'{_T} (frame of deblend_sources, completion-order '
+                                            f'independence, worker purity) + {_B} incl. adversarial '
+                                            'scheduler',
+                text='Proved: deblend_sources writes no caller-supplied object; futures are consumed '
+                     'in completion order only through results[index_of[future]] = future.result() '
+                     'into a pre-sized list whose indices were assigned at submission, the worker '
+                     'function writes to none of its arguments, and the serial branch and the '
+                     'parallel merge loop run textually identical statements in label order -- so '
+                     'the output does not depend on nproc or on the order in which workers finish. '
+                     'Refinement facts and real spawn pools with permuted completion orders are '
+                     'checked bounded.',
+                note='watershed / ndimage contracts not assumed; progress-bar calls assumed '
+                     'side-effect free; structural obligations (a restructured loop is undecided, '
+                     'not refuted)'),
     'C07': dict(engine='coherence+pyvc', technique=f'{_T} (per-source pixel selection, getter '
                                                    f'purity, segmentation-image coherence) + {_B}',
                 text='Proved for every source and pixel: the total mask excludes exactly the '
